@@ -211,8 +211,29 @@ def ort_reference(op, mv, p, args):
     return ent["sess"].run(None, {f"a{i}": np.ascontiguousarray(v, dtype=F32) for i, v in enumerate(args)})[0]
 
 
+# The operators each of these macros emits, per module version — a literal table (it was read off the
+# single-version models once): expectations must not depend on the code under test being able to build.
+_RS, _C = ["Constant", "Reshape"], ["Constant"]
+ORT_EMITS = {
+    "avg_pool": lambda mv: _RS + ["AveragePool"] + _RS,
+    "cast_like": lambda mv: ["Constant", "CastLike", "Cast"],
+    "dft": lambda mv: _RS + (_C if mv >= 20 else []) + ["DFT"] + _C * 3 + ["Slice", "Constant", "Squeeze"],
+    "equal": lambda mv: ["Abs", "Equal", "Cast", "Add"],
+    "grid_sample": lambda mv: _RS + ["Constant", "GridSample"] + _RS,
+    "isinf": lambda mv: ["IsInf", "Constant", "Where"],
+    "lp_pool": lambda mv: _RS + ["LpPool"] + _RS,
+    "optional": lambda mv: ["Optional", "OptionalGetElement"],
+    "qdq": lambda mv: _C * 2 + ["QuantizeLinear"] + _C * 2 + ["DequantizeLinear"],
+    "resize": lambda mv: _RS + ["Constant", "Resize"] + _C * 4 + ["Slice"] + _RS,
+    "rlogsum": lambda mv: ["Abs", "Constant", "Add"] + (_C if mv >= 18 else []) + ["ReduceLogSum", "Sub"],
+    "rlse": lambda mv: ["Tanh"] + (_C if mv >= 18 else []) + ["ReduceLogSumExp", "Sub"],
+    "scatter_el": lambda mv: _C * 2 + ["ScatterElements"],
+    "scatter_nd": lambda mv: _C * 2 + ["ScatterND"],
+    "size": lambda mv: ["Size", "Cast", "Add"],
+}
+
 for _n, _b in ORT_MACROS.items():
-    macro(_n, 1, (lambda n: lambda a, p: None)(_n), _b, (lambda n: lambda mv, p: single(n, mv, p)["ops"])(_n),
+    macro(_n, 1, (lambda n: lambda a, p: None)(_n), _b, (lambda n: lambda mv, p: ORT_EMITS[n](mv))(_n),
           versioned=True, ort_ref=True)
 
 # static rank made unknown / restored (the input "s" holds [2, 3] at run time)
